@@ -342,6 +342,9 @@ def name_probes(ctx):
     bad = {'path': ['', 'a', '/a/', '//', '/a-b', '/org/freedesktop/DBus/Local'], 'member': ['', '1a', 'a.b', 'a-b', 'M' * 256],
            'interface': ['', 'a', 'a.', '.a', 'a..b', 'a.1', 'a b.c', 'a.' + 'b' * 254],
            'destination': ['', 'a', '1.2', 'a.b:c', ':', 'a.' + 'b' * 254], 'error_name': ['', 'a', 'a.', 'a.1b']}
+    good = {'path': '/p', 'member': 'M', 'interface': 'a.b', 'destination': 'a.b', 'error_name': 'a.b'}
+    for pos in list(bad):
+        bad[pos] = bad[pos] + [good[pos] + '\n', good[pos] + '\r\n', '\n' + good[pos], good[pos] + '\0', good[pos] + ' ']
     for pos, vals in bad.items():
         for v in vals:
             for ctor in ('call', 'signal', 'error', 'return'):
